@@ -7,7 +7,7 @@ from sa.astx import body_walk, call_attr, call_name, dotted, src
 from sa.effects import accesses
 from sa.selftest import Mutant, Silent
 from sa.source import AnalysisError, methods, mro_lookup
-from sa.props._lib_c import (LOGGER, assign_pairs, enclosing, gfind, is_const, isolating_with, must_pass, no_exc, parents, self_attr,
+from sa.props._lib_c import (section, LOGGER, assign_pairs, enclosing, gfind, is_const, isolating_with, must_pass, no_exc, parents, self_attr,
                              swallowing_predicate)
 
 PROPERTY = "C13"
@@ -54,355 +54,372 @@ def check(ctx):
               "(the calls already made run a second time)")
 
     # ---- siblings: who defines callFromThread / touches the queue (repo-wide) --------------------------------------------
-    definers, touchers = [], []
-    for rel in ctx.tree.all_modules():
-        text = ctx.tree.text(rel)
-        if "def callFromThread" in text:
-            definers.append(rel)
-        if QUEUE in text:
-            touchers.append(rel)
-    unknown = sorted(set(definers) - KNOWN_SIBLINGS)
-    if unknown:
-        raise AnalysisError(f"C13: new callFromThread implementation(s) not known to the checker: {unknown}")
-    nacc = 0
-    drain_owner = next(("ReactorBase." + nm for nm, fx in methods(ctx.cls(BASE, "ReactorBase")).items()
-                        if any(isinstance(x, ast.For) and QUEUE in src(x.iter) for x in body_walk(fx))), "ReactorBase.runUntilCurrent")
-    for rel in touchers:
-        m = ctx.mod(rel)
-        for qn, fn in m.functions():
-            for a in accesses(fn, qn, {QUEUE}, None):
-                nacc += 1
-                key = ctx.construct(f"twisted.{rel[:-3].replace('/', '.')}.{a.func}", a.node)
-                ok = rel == BASE and ((a.func == "ReactorBase.__init__" and a.kind in ("rebind-empty", "assign")) or
-                                      (a.func == "ReactorBase.callFromThread" and a.kind == "append") or
-                                      (a.func in ("ReactorBase.runUntilCurrent", drain_owner) and a.kind == "del-prefix"))
-                ctx.check(ok, "queue/who-may-mutate", key,
-                          f"threadCallQueue is changed by {a.kind} in {a.func}: calls are lost, duplicated or reordered (only tail append and deletion of the executed prefix are allowed)")
-    ctx.floor("queue/who-may-mutate", nacc, 2)
+    with section(ctx, 'siblings: who defines callFromThread / touches the queue (repo-wide)'):
+        definers, touchers = [], []
+        for rel in ctx.tree.all_modules():
+            text = ctx.tree.text(rel)
+            if "def callFromThread" in text:
+                definers.append(rel)
+            if QUEUE in text:
+                touchers.append(rel)
+        unknown = sorted(set(definers) - KNOWN_SIBLINGS)
+        if unknown:
+            raise AnalysisError(f"C13: new callFromThread implementation(s) not known to the checker: {unknown}")
+        nacc = 0
+        drain_owner = next(("ReactorBase." + nm for nm, fx in methods(ctx.cls(BASE, "ReactorBase")).items()
+                            if any(isinstance(x, ast.For) and QUEUE in src(x.iter) for x in body_walk(fx))), "ReactorBase.runUntilCurrent")
+        for rel in touchers:
+            m = ctx.mod(rel)
+            for qn, fn in m.functions():
+                for a in accesses(fn, qn, {QUEUE}, None):
+                    nacc += 1
+                    key = ctx.construct(f"twisted.{rel[:-3].replace('/', '.')}.{a.func}", a.node)
+                    ok = rel == BASE and ((a.func == "ReactorBase.__init__" and a.kind in ("rebind-empty", "assign")) or
+                                          (a.func == "ReactorBase.callFromThread" and a.kind == "append") or
+                                          (a.func in ("ReactorBase.runUntilCurrent", drain_owner) and a.kind == "del-prefix"))
+                    ctx.check(ok, "queue/who-may-mutate", key,
+                              f"threadCallQueue is changed by {a.kind} in {a.func}: calls are lost, duplicated or reordered (only tail append and deletion of the executed prefix are allowed)")
+        ctx.floor("queue/who-may-mutate", nacc, 2)
 
     # ---- ReactorBase.callFromThread variants -----------------------------------------------------------------------------------
-    variants = ctx.tree.funcs(BASE, "ReactorBase.callFromThread")
-    ctx.functions.add(f"{BASE}:ReactorBase.callFromThread")
-    threaded = []
-    for i, f in enumerate(variants):
-        par = getattr(f, "_parent", None)
-        is_thr = isinstance(par, ast.If) and src(par.test) == "platform.supportsThreads()" and any(f is x for x in par.body)
-        is_nothr = isinstance(par, ast.If) and src(par.test) == "platform.supportsThreads()" and any(f is x for x in par.orelse)
-        label = "threads" if is_thr else ("no-threads" if is_nothr else f"variant{i}")
-        if not is_nothr:
-            threaded.append(f)
-        q = f"{QR}.callFromThread[{label}]"
-        g = ctx.cfg(f)
-        ps = [a.arg for a in f.args.args]
-        ctx.need(len(ps) >= 2 and f.args.vararg and f.args.kwarg, "callFromThread(self, f, *args, **kwargs)")
-        fn, va, kwa = ps[1], f.args.vararg.arg, f.args.kwarg.arg
-        apps = gfind(g, lambda x: _is_call(x, f"self.{QUEUE}.append"))
-        ctx.check(len(apps) == 1, "enqueue/once", q, f"{len(apps)} enqueue sites (exactly one expected: a call must be queued exactly once)")
-        for n in apps:
-            c = next(x for x in ast.walk(g.node(n).ast) if _is_call(x, f"self.{QUEUE}.append"))
-            ok = len(c.args) == 1 and isinstance(c.args[0], ast.Tuple) and [src(e) for e in c.args[0].elts] == [fn, va, kwa]
-            ctx.check(ok, "enqueue/entry-shape", ctx.construct(q, g.node(n).ast), "the queued entry is not (f, args, kwargs) as consumed by runUntilCurrent")
-        w = must_pass(g, [g.entry], apps, exc=False)
-        ctx.check(w is None, "enqueue/once", q + " | <all paths>", "callFromThread can return without queueing the call", witness=g.describe(w))
-        direct = [c for c in body_walk(f) if isinstance(c, ast.Call) and isinstance(c.func, ast.Name) and c.func.id == fn]
-        ctx.check(not direct, "enqueue/never-runs-in-caller", q,
-                  "callFromThread invokes f itself: the call runs in the calling thread / overtakes calls queued earlier by the same thread")
-        if is_nothr:
-            ctx.ok("wake/after-enqueue", q, "exempt: without thread support callFromThread is only used from signal handlers, which wake the reactor themselves")
-            continue
-        wakes = gfind(g, lambda x: _is_call(x, "self.wakeUp"))
-        ctx.check(bool(wakes), "wake/after-enqueue", q, "the reactor is not woken after a call is queued: an idle reactor runs it only when an unrelated event arrives")
-        for n in apps:
-            w = must_pass(g, [n], wakes, exc=False)
-            ctx.check(bool(wakes) and w is None, "wake/after-enqueue", ctx.construct(q, g.node(n).ast),
-                      "after queueing, callFromThread can return without waking the reactor", witness=g.describe(w))
-        for wk in wakes:
-            w = g.must_precede(apps, [wk]) if apps else [g.entry]
-            ctx.check(w is None, "wake/enqueue-before-wake", ctx.construct(q, g.node(wk).ast),
-                      "the reactor is woken before the call is in the queue: the wake-up can be consumed with an empty queue and the call then waits "
-                      "for an unrelated event", witness=g.describe(w))
-    ctx.check(bool(threaded), "wake/after-enqueue", f"{QR}.callFromThread", "no thread-capable callFromThread variant exists")
+    with section(ctx, 'ReactorBase.callFromThread variants'):
+        variants = ctx.tree.funcs(BASE, "ReactorBase.callFromThread")
+        ctx.functions.add(f"{BASE}:ReactorBase.callFromThread")
+        threaded = []
+        for i, f in enumerate(variants):
+            par = getattr(f, "_parent", None)
+            is_thr = isinstance(par, ast.If) and src(par.test) == "platform.supportsThreads()" and any(f is x for x in par.body)
+            is_nothr = isinstance(par, ast.If) and src(par.test) == "platform.supportsThreads()" and any(f is x for x in par.orelse)
+            label = "threads" if is_thr else ("no-threads" if is_nothr else f"variant{i}")
+            if not is_nothr:
+                threaded.append(f)
+            q = f"{QR}.callFromThread[{label}]"
+            g = ctx.cfg(f)
+            ps = [a.arg for a in f.args.args]
+            ctx.need(len(ps) >= 2 and f.args.vararg and f.args.kwarg, "callFromThread(self, f, *args, **kwargs)")
+            fn, va, kwa = ps[1], f.args.vararg.arg, f.args.kwarg.arg
+            apps = gfind(g, lambda x: _is_call(x, f"self.{QUEUE}.append"))
+            ctx.check(len(apps) == 1, "enqueue/once", q, f"{len(apps)} enqueue sites (exactly one expected: a call must be queued exactly once)")
+            for n in apps:
+                c = next(x for x in ast.walk(g.node(n).ast) if _is_call(x, f"self.{QUEUE}.append"))
+                ok = len(c.args) == 1 and isinstance(c.args[0], ast.Tuple) and [src(e) for e in c.args[0].elts] == [fn, va, kwa]
+                ctx.check(ok, "enqueue/entry-shape", ctx.construct(q, g.node(n).ast), "the queued entry is not (f, args, kwargs) as consumed by runUntilCurrent")
+            w = must_pass(g, [g.entry], apps, exc=False)
+            ctx.check(w is None, "enqueue/once", q + " | <all paths>", "callFromThread can return without queueing the call", witness=g.describe(w))
+            direct = [c for c in body_walk(f) if isinstance(c, ast.Call) and isinstance(c.func, ast.Name) and c.func.id == fn]
+            ctx.check(not direct, "enqueue/never-runs-in-caller", q,
+                      "callFromThread invokes f itself: the call runs in the calling thread / overtakes calls queued earlier by the same thread")
+            if is_nothr:
+                ctx.ok("wake/after-enqueue", q, "exempt: without thread support callFromThread is only used from signal handlers, which wake the reactor themselves")
+                continue
+            wakes = gfind(g, lambda x: _is_call(x, "self.wakeUp"))
+            ctx.check(bool(wakes), "wake/after-enqueue", q, "the reactor is not woken after a call is queued: an idle reactor runs it only when an unrelated event arrives")
+            for n in apps:
+                w = must_pass(g, [n], wakes, exc=False)
+                ctx.check(bool(wakes) and w is None, "wake/after-enqueue", ctx.construct(q, g.node(n).ast),
+                          "after queueing, callFromThread can return without waking the reactor", witness=g.describe(w))
+            for wk in wakes:
+                w = g.must_precede(apps, [wk]) if apps else [g.entry]
+                ctx.check(w is None, "wake/enqueue-before-wake", ctx.construct(q, g.node(wk).ast),
+                          "the reactor is woken before the call is in the queue: the wake-up can be consumed with an empty queue and the call then waits "
+                          "for an unrelated event", witness=g.describe(w))
+        ctx.check(bool(threaded), "wake/after-enqueue", f"{QR}.callFromThread", "no thread-capable callFromThread variant exists")
 
     # ---- wakeUp ------------------------------------------------------------------------------------------------------------------
-    f = ctx.func(BASE, "ReactorBase.wakeUp")
-    g = ctx.cfg(f)
-    q = f"{QR}.wakeUp"
-    wk = gfind(g, lambda x: _is_call(x, "self.waker.wakeUp"))
-    ctx.check(bool(wk), "wake/reaches-waker", q, "wakeUp() no longer calls the waker")
-    tests = g.ids(lambda n: n.kind == "test")
-    extra = [src(g.node(t).ast) for t in tests if src(g.node(t).ast) not in ("self.waker", "self.waker is not None", "self.waker is None")]
-    ctx.check(not extra, "wake/reaches-waker", q + " | <conditions>", "waking depends on an extra condition: " + ", ".join(extra))
-    for t in tests:
-        if src(g.node(t).ast) in ("self.waker", "self.waker is not None", "self.waker is None"):
-            lab = "F" if src(g.node(t).ast).endswith("is None") else "T"
-            s = [d for d, l in g.succ[t] if l == lab]
-            w = must_pass(g, s, wk, exc=False)
-            ctx.check(w is None, "wake/reaches-waker", ctx.construct(q, g.node(t).ast), "with a waker installed wakeUp() can return without using it", witness=g.describe(w))
-    if not tests:
-        w = must_pass(g, [g.entry], wk, exc=False)
-        ctx.check(w is None, "wake/reaches-waker", q + " | <all paths>", "wakeUp() can return without using the waker", witness=g.describe(w))
+    with section(ctx, 'wakeUp'):
+        f = ctx.func(BASE, "ReactorBase.wakeUp")
+        g = ctx.cfg(f)
+        q = f"{QR}.wakeUp"
+        wk = gfind(g, lambda x: _is_call(x, "self.waker.wakeUp"))
+        ctx.check(bool(wk), "wake/reaches-waker", q, "wakeUp() no longer calls the waker")
+        tests = g.ids(lambda n: n.kind == "test")
+        extra = [src(g.node(t).ast) for t in tests if src(g.node(t).ast) not in ("self.waker", "self.waker is not None", "self.waker is None")]
+        ctx.check(not extra, "wake/reaches-waker", q + " | <conditions>", "waking depends on an extra condition: " + ", ".join(extra))
+        for t in tests:
+            if src(g.node(t).ast) in ("self.waker", "self.waker is not None", "self.waker is None"):
+                lab = "F" if src(g.node(t).ast).endswith("is None") else "T"
+                s = [d for d, l in g.succ[t] if l == lab]
+                w = must_pass(g, s, wk, exc=False)
+                ctx.check(w is None, "wake/reaches-waker", ctx.construct(q, g.node(t).ast), "with a waker installed wakeUp() can return without using it", witness=g.describe(w))
+        if not tests:
+            w = must_pass(g, [g.entry], wk, exc=False)
+            ctx.check(w is None, "wake/reaches-waker", q + " | <all paths>", "wakeUp() can return without using the waker", witness=g.describe(w))
 
     # ---- runUntilCurrent: the drain ------------------------------------------------------------------------------------------------
-    f_ruc = ctx.func(BASE, "ReactorBase.runUntilCurrent")
-    rb = ctx.cls(BASE, "ReactorBase")
-    drainers = [(nm, fx) for nm, fx in methods(rb).items() if any(isinstance(x, ast.For) and QUEUE in src(x.iter) for x in body_walk(fx))]
-    ctx.need(len(drainers) == 1, "exactly one ReactorBase method with a `for ... in self.threadCallQueue` loop")
-    drain_name, f = drainers[0]
-    ctx.functions.add(f"{BASE}:ReactorBase.{drain_name}")
-    if f is not f_ruc:
-        # the drain was extracted into a helper: runUntilCurrent must reach it on every path, before anything else can return
-        gr = ctx.cfg(f_ruc, swallowing=swallow)
-        dc = gfind(gr, lambda x: _is_call(x, f"self.{drain_name}"))
-        w = must_pass(gr, [gr.entry], dc, exc=False)
-        ctx.check(bool(dc) and w is None, "drain/unconditional", f"{QR}.runUntilCurrent", f"runUntilCurrent does not always run the drain helper {drain_name}()", witness=gr.describe(w))
-        for n in dc:
-            conds = [src(gr.node(t).ast) for t, lab in gr.edge_guards(n) if src(gr.node(t).ast) != f"self.{QUEUE}"]
-            ctx.check(not conds, "drain/unconditional", ctx.construct(f"{QR}.runUntilCurrent", gr.node(n).ast), "draining the queue depends on: " + ", ".join(conds))
-    g = ctx.cfg(f, swallowing=swallow)
-    q = f"{QR}.{drain_name}"
-    heads = g.ids(lambda n: n.kind == "for" and QUEUE in src(n.ast.iter))
-    ctx.need(len(heads) == 1, "one `for ... in self.threadCallQueue` loop in the drain function")
-    h = heads[0]
-    loop = g.node(h).ast
-    lkey = ctx.construct(q, f"for {src(loop.target)} in {src(loop.iter)}")
-    ctx.check(src(loop.iter) == f"self.{QUEUE}", "drain/from-head", lkey,
-              "the queue is not iterated from its head in place: calls of one thread run out of order, or the executed entries are not the deleted prefix")
-    ok = isinstance(loop.target, ast.Tuple) and len(loop.target.elts) == 3 and all(isinstance(e, ast.Name) for e in loop.target.elts)
-    ctx.check(ok, "drain/entry-shape", lkey, "queue entries are not unpacked as (f, args, kwargs)")
-    ctx.need(ok, "loop target (f, a, kw)")
-    fn, a_, kw_ = [e.id for e in loop.target.elts]
-    it = [d for d, l in g.succ[h] if l == "iter"]
-    after = [d for d, l in g.succ[h] if l == "done"]
-    outs = gfind(g, lambda x: isinstance(x, ast.Call) and isinstance(x.func, ast.Name) and x.func.id == fn and enclosing(x, (ast.For,)) is loop)
-    ctx.check(len(outs) == 1, "drain/each-entry-called-once", lkey, f"{len(outs)} call sites for a queue entry inside the loop (one expected)")
-    for o in outs:
-        c = next(x for x in ast.walk(g.node(o).ast) if isinstance(x, ast.Call) and isinstance(x.func, ast.Name) and x.func.id == fn)
-        okey = ctx.construct(q, g.node(o).ast)
-        okargs = (len(c.args) == 1 and isinstance(c.args[0], ast.Starred) and src(c.args[0].value) == a_ and len(c.keywords) == 1 and c.keywords[0].arg is None
-                  and src(c.keywords[0].value) == kw_)
-        ctx.check(okargs, "drain/entry-shape", okey, "the queued call is not invoked with its own *args, **kwargs")
-        ctx.check(isolating_with(c, names) is not None, "drain/isolated", okey,
-                  "a queued call is not wrapped, inside the loop, by a swallowing failure handler: when it raises the loop is left before the executed prefix is deleted "
-                  "(executed calls run again on the next iteration) and the other calls are delayed")
-        esc = [d for d, l in g.succ[o] if l == "exc" and g.node(d).kind != "with_exit"]
-        ctx.check(not esc, "drain/isolated", okey + " | <exception edge>", "an exception of a queued call leaves the loop")
-    w = must_pass(g, it, outs, to=[h] + after, exc=False)
-    ctx.check(w is None, "drain/each-entry-called-once", lkey + " | <every iteration>", "an iteration can skip calling its entry (which is nevertheless deleted)", witness=g.describe(w))
+    with section(ctx, 'runUntilCurrent: the drain'):
+        f_ruc = ctx.func(BASE, "ReactorBase.runUntilCurrent")
+        rb = ctx.cls(BASE, "ReactorBase")
+        drainers = [(nm, fx) for nm, fx in methods(rb).items() if any(isinstance(x, ast.For) and QUEUE in src(x.iter) for x in body_walk(fx))]
+        ctx.need(len(drainers) == 1, "exactly one ReactorBase method with a `for ... in self.threadCallQueue` loop")
+        drain_name, f = drainers[0]
+        ctx.functions.add(f"{BASE}:ReactorBase.{drain_name}")
+        if f is not f_ruc:
+            # the drain was extracted into a helper: runUntilCurrent must reach it on every path, before anything else can return
+            gr = ctx.cfg(f_ruc, swallowing=swallow)
+            dc = gfind(gr, lambda x: _is_call(x, f"self.{drain_name}"))
+            w = must_pass(gr, [gr.entry], dc, exc=False)
+            ctx.check(bool(dc) and w is None, "drain/unconditional", f"{QR}.runUntilCurrent", f"runUntilCurrent does not always run the drain helper {drain_name}()", witness=gr.describe(w))
+            for n in dc:
+                conds = [src(gr.node(t).ast) for t, lab in gr.edge_guards(n) if src(gr.node(t).ast) != f"self.{QUEUE}"]
+                ctx.check(not conds, "drain/unconditional", ctx.construct(f"{QR}.runUntilCurrent", gr.node(n).ast), "draining the queue depends on: " + ", ".join(conds))
+        g = ctx.cfg(f, swallowing=swallow)
+        q = f"{QR}.{drain_name}"
+        heads = g.ids(lambda n: n.kind == "for" and QUEUE in src(n.ast.iter))
+        ctx.need(len(heads) == 1, "one `for ... in self.threadCallQueue` loop in the drain function")
+        h = heads[0]
+        loop = g.node(h).ast
+        lkey = ctx.construct(q, f"for {src(loop.target)} in {src(loop.iter)}")
+        ctx.check(src(loop.iter) == f"self.{QUEUE}", "drain/from-head", lkey,
+                  "the queue is not iterated from its head in place: calls of one thread run out of order, or the executed entries are not the deleted prefix")
+        ok = isinstance(loop.target, ast.Tuple) and len(loop.target.elts) == 3 and all(isinstance(e, ast.Name) for e in loop.target.elts)
+        ctx.check(ok, "drain/entry-shape", lkey, "queue entries are not unpacked as (f, args, kwargs)")
+        ctx.need(ok, "loop target (f, a, kw)")
+        fn, a_, kw_ = [e.id for e in loop.target.elts]
+        it = [d for d, l in g.succ[h] if l == "iter"]
+        after = [d for d, l in g.succ[h] if l == "done"]
+        outs = gfind(g, lambda x: isinstance(x, ast.Call) and isinstance(x.func, ast.Name) and x.func.id == fn and enclosing(x, (ast.For,)) is loop)
+        ctx.check(len(outs) == 1, "drain/each-entry-called-once", lkey, f"{len(outs)} call sites for a queue entry inside the loop (one expected)")
+        for o in outs:
+            c = next(x for x in ast.walk(g.node(o).ast) if isinstance(x, ast.Call) and isinstance(x.func, ast.Name) and x.func.id == fn)
+            okey = ctx.construct(q, g.node(o).ast)
+            okargs = (len(c.args) == 1 and isinstance(c.args[0], ast.Starred) and src(c.args[0].value) == a_ and len(c.keywords) == 1 and c.keywords[0].arg is None
+                      and src(c.keywords[0].value) == kw_)
+            ctx.check(okargs, "drain/entry-shape", okey, "the queued call is not invoked with its own *args, **kwargs")
+            ctx.check(isolating_with(c, names) is not None, "drain/isolated", okey,
+                      "a queued call is not wrapped, inside the loop, by a swallowing failure handler: when it raises the loop is left before the executed prefix is deleted "
+                      "(executed calls run again on the next iteration) and the other calls are delayed")
+            esc = [d for d, l in g.succ[o] if l == "exc" and g.node(d).kind != "with_exit"]
+            ctx.check(not esc, "drain/isolated", okey + " | <exception edge>", "an exception of a queued call leaves the loop")
+        w = must_pass(g, it, outs, to=[h] + after, exc=False)
+        ctx.check(w is None, "drain/each-entry-called-once", lkey + " | <every iteration>", "an iteration can skip calling its entry (which is nevertheless deleted)", witness=g.describe(w))
 
-    dels = g.ids(lambda n: n.kind == "stmt" and isinstance(n.ast, ast.Delete) and any(
-        isinstance(t, ast.Subscript) and src(t.value) == f"self.{QUEUE}" and isinstance(t.slice, ast.Slice) for t in n.ast.targets))
-    ctx.check(len(dels) == 1, "drain/executed-prefix-deleted", q, f"{len(dels)} deletions of queue slices in runUntilCurrent (one prefix delete expected): executed calls would run again")
-    counter = None
-    for d in dels:
-        t = next(t for t in g.node(d).ast.targets if isinstance(t, ast.Subscript))
-        dkey = ctx.construct(q, g.node(d).ast)
-        ok = t.slice.lower is None and t.slice.step is None and isinstance(t.slice.upper, ast.Name)
-        ctx.check(ok, "drain/executed-prefix-deleted", dkey,
-                  "the deletion is not `del queue[:count]` with the count of executed calls: entries appended by other threads during the loop are dropped unexecuted, or executed ones kept")
-        if ok:
-            counter = t.slice.upper.id
-        ctx.check(enclosing(g.node(d).ast, (ast.For, ast.While)) is None, "drain/executed-prefix-deleted", dkey + " | <after loop>",
-                  "the prefix is deleted while the queue is being iterated (the iterator skips entries)")
-        w = must_pass(g, [h], [d], exc=False)
-        ctx.check(w is None, "drain/executed-prefix-deleted", dkey + " | <all paths>", "the loop can be left (break / exhaustion) without deleting the executed prefix: those calls run a second time",
-                  witness=g.describe(w))
-    if counter:
-        writes = g.ids(lambda n: n.kind == "stmt" and ((isinstance(n.ast, ast.AugAssign) and isinstance(n.ast.target, ast.Name) and n.ast.target.id == counter)
-                                                     or any(isinstance(t, ast.Name) and t.id == counter for t, v in assign_pairs(n.ast))))
-        inits = [n for n in writes if not isinstance(g.node(n).ast, ast.AugAssign)]
-        incs = [n for n in writes if isinstance(g.node(n).ast, ast.AugAssign)]
-        ckey = f"{q} | <executed counter {counter}>"
-        ok = len(inits) == 1 and all(is_zero(v) for t, v in assign_pairs(g.node(inits[0]).ast) if isinstance(t, ast.Name) and t.id == counter) \
-            and enclosing(g.node(inits[0]).ast, (ast.For, ast.While)) is None and g.must_precede(inits, [h]) is None
-        ctx.check(ok, "drain/count-matches-executed", ckey + " | init", "the executed-calls counter does not start at 0 once before the loop")
-        ok = len(incs) == 1 and isinstance(g.node(incs[0]).ast.op, ast.Add) and _const_one(g.node(incs[0]).ast.value) and enclosing(g.node(incs[0]).ast, (ast.For,)) is loop
-        ctx.check(ok, "drain/count-matches-executed", ckey + " | increment", "the counter is not incremented by exactly one inside the loop")
-        w = must_pass(g, it, incs, to=[h] + after + dels, exc=True)
-        ctx.check(w is None, "drain/count-matches-executed", ckey + " | every iteration",
-                  "an iteration (e.g. one whose call raised, or the one that breaks out) is not counted: its call is executed but stays in the queue and runs again",
-                  witness=g.describe(w))
-        for i in incs:
-            w = g.path([i], incs, avoid={h}, strict=True)
-            ctx.check(w is None, "drain/count-matches-executed", ckey + " | at most once", "an iteration can be counted twice: an unexecuted call is deleted", witness=g.describe(w))
-    # remainder wake
-    for d in dels:
-        rtests = [t for t in g.ids(lambda n: n.kind == "test" and src(n.ast) in (f"self.{QUEUE}", f"len(self.{QUEUE}) > 0", f"len(self.{QUEUE})")) if g.path([d], [t]) is not None]
-        wakes = gfind(g, lambda x: _is_call(x, "self.wakeUp"))
-        ctx.check(bool(rtests) and bool(wakes), "drain/remainder-wakes", q, "entries left in the queue after the drain (appended during the loop) do not trigger a wake-up: they wait for an unrelated event")
-        for t in rtests:
-            s = [x for x, l in g.succ[t] if l == "T"]
-            w = must_pass(g, s, wakes, exc=False)
-            ctx.check(w is None, "drain/remainder-wakes", ctx.construct(q, g.node(t).ast), "a non-empty remainder can skip the wake-up", witness=g.describe(w))
-        w = must_pass(g, [x for x, l in g.succ[d] if l != "exc"], rtests, exc=False)
-        ctx.check(w is None, "drain/remainder-wakes", q + " | <after delete>", "after the prefix delete the remainder test can be skipped", witness=g.describe(w))
-    # the drain is not conditional on anything but the queue being non-empty
-    conds = [src(g.node(t).ast) for t, lab in g.edge_guards(h)]
-    ctx.check(all(c == f"self.{QUEUE}" for c in conds), "drain/unconditional", lkey, "draining the queue depends on: " + ", ".join(conds))
+        dels = g.ids(lambda n: n.kind == "stmt" and isinstance(n.ast, ast.Delete) and any(
+            isinstance(t, ast.Subscript) and src(t.value) == f"self.{QUEUE}" and isinstance(t.slice, ast.Slice) for t in n.ast.targets))
+        ctx.check(len(dels) == 1, "drain/executed-prefix-deleted", q, f"{len(dels)} deletions of queue slices in runUntilCurrent (one prefix delete expected): executed calls would run again")
+        counter = None
+        for d in dels:
+            t = next(t for t in g.node(d).ast.targets if isinstance(t, ast.Subscript))
+            dkey = ctx.construct(q, g.node(d).ast)
+            ok = t.slice.lower is None and t.slice.step is None and isinstance(t.slice.upper, ast.Name)
+            ctx.check(ok, "drain/executed-prefix-deleted", dkey,
+                      "the deletion is not `del queue[:count]` with the count of executed calls: entries appended by other threads during the loop are dropped unexecuted, or executed ones kept")
+            if ok:
+                counter = t.slice.upper.id
+            ctx.check(enclosing(g.node(d).ast, (ast.For, ast.While)) is None, "drain/executed-prefix-deleted", dkey + " | <after loop>",
+                      "the prefix is deleted while the queue is being iterated (the iterator skips entries)")
+            w = must_pass(g, [h], [d], exc=False)
+            ctx.check(w is None, "drain/executed-prefix-deleted", dkey + " | <all paths>", "the loop can be left (break / exhaustion) without deleting the executed prefix: those calls run a second time",
+                      witness=g.describe(w))
+        if counter:
+            writes = g.ids(lambda n: n.kind == "stmt" and ((isinstance(n.ast, ast.AugAssign) and isinstance(n.ast.target, ast.Name) and n.ast.target.id == counter)
+                                                         or any(isinstance(t, ast.Name) and t.id == counter for t, v in assign_pairs(n.ast))))
+            inits = [n for n in writes if not isinstance(g.node(n).ast, ast.AugAssign)]
+            incs = [n for n in writes if isinstance(g.node(n).ast, ast.AugAssign)]
+            ckey = f"{q} | <executed counter {counter}>"
+            ok = len(inits) == 1 and all(is_zero(v) for t, v in assign_pairs(g.node(inits[0]).ast) if isinstance(t, ast.Name) and t.id == counter) \
+                and enclosing(g.node(inits[0]).ast, (ast.For, ast.While)) is None and g.must_precede(inits, [h]) is None
+            ctx.check(ok, "drain/count-matches-executed", ckey + " | init", "the executed-calls counter does not start at 0 once before the loop")
+            ok = len(incs) == 1 and isinstance(g.node(incs[0]).ast.op, ast.Add) and _const_one(g.node(incs[0]).ast.value) and enclosing(g.node(incs[0]).ast, (ast.For,)) is loop
+            ctx.check(ok, "drain/count-matches-executed", ckey + " | increment", "the counter is not incremented by exactly one inside the loop")
+            w = must_pass(g, it, incs, to=[h] + after + dels, exc=True)
+            ctx.check(w is None, "drain/count-matches-executed", ckey + " | every iteration",
+                      "an iteration (e.g. one whose call raised, or the one that breaks out) is not counted: its call is executed but stays in the queue and runs again",
+                      witness=g.describe(w))
+            for i in incs:
+                w = g.path([i], incs, avoid={h}, strict=True)
+                ctx.check(w is None, "drain/count-matches-executed", ckey + " | at most once", "an iteration can be counted twice: an unexecuted call is deleted", witness=g.describe(w))
+
+    # ---- drain: remainder wake --------------------
+    with section(ctx, 'drain: remainder wake'):
+        # remainder wake
+        for d in dels:
+            rtests = [t for t in g.ids(lambda n: n.kind == "test" and src(n.ast) in (f"self.{QUEUE}", f"len(self.{QUEUE}) > 0", f"len(self.{QUEUE})")) if g.path([d], [t]) is not None]
+            wakes = gfind(g, lambda x: _is_call(x, "self.wakeUp"))
+            ctx.check(bool(rtests) and bool(wakes), "drain/remainder-wakes", q, "entries left in the queue after the drain (appended during the loop) do not trigger a wake-up: they wait for an unrelated event")
+            for t in rtests:
+                s = [x for x, l in g.succ[t] if l == "T"]
+                w = must_pass(g, s, wakes, exc=False)
+                ctx.check(w is None, "drain/remainder-wakes", ctx.construct(q, g.node(t).ast), "a non-empty remainder can skip the wake-up", witness=g.describe(w))
+            w = must_pass(g, [x for x, l in g.succ[d] if l != "exc"], rtests, exc=False)
+            ctx.check(w is None, "drain/remainder-wakes", q + " | <after delete>", "after the prefix delete the remainder test can be skipped", witness=g.describe(w))
+        # the drain is not conditional on anything but the queue being non-empty
+        conds = [src(g.node(t).ast) for t, lab in g.edge_guards(h)]
+        ctx.check(all(c == f"self.{QUEUE}" for c in conds), "drain/unconditional", lkey, "draining the queue depends on: " + ", ".join(conds))
 
     # ---- mainLoop drains every iteration ------------------------------------------------------------------------------------------------
-    f = ctx.func(BASE, "ReactorBase.mainLoop")
-    g = ctx.cfg(f, swallowing=swallow)
-    q = f"{QR}.mainLoop"
-    ru = gfind(g, lambda x: _is_call(x, "self.runUntilCurrent"))
-    di = gfind(g, lambda x: _is_call(x, "self.doIteration"))
-    ctx.check(bool(ru) and bool(di), "mainloop/drains-each-iteration", q, "mainLoop lost runUntilCurrent()/doIteration()")
-    for n in ru:
-        c = next(x for x in ast.walk(g.node(n).ast) if _is_call(x, "self.runUntilCurrent"))
-        ctx.check(enclosing(c, (ast.While,)) is not None and isolating_with(c, names) is not None, "mainloop/drains-each-iteration", ctx.construct(q, g.node(n).ast),
-                  "runUntilCurrent() is not run on every loop iteration under the top-level failure handler")
-    for n in di:
-        w = g.path([n], ru, edge_ok=no_exc)
-        ctx.check(w is not None, "mainloop/drains-each-iteration", ctx.construct(q, g.node(n).ast), "after the poll returns (e.g. woken by the waker) the queue is not drained again")
-    f = ctx.func(BASE, "ReactorBase.__init__")
-    g = ctx.cfg(f)
-    iw = gfind(g, lambda x: _is_call(x, "self.installWaker"))
-    w = must_pass(g, [g.entry], iw, exc=False)
-    ctx.check(bool(iw) and w is None, "waker/installed", f"{QR}.__init__", "the reactor is constructed without installing a waker: wakeUp() is a no-op", witness=g.describe(w))
-    qinit = g.ids(lambda n: n.kind == "stmt" and any(self_attr(t, QUEUE) and isinstance(v, ast.List) and not v.elts for t, v in assign_pairs(n.ast)))
-    ctx.check(bool(qinit), "queue/who-may-mutate", f"{QR}.__init__ | <initial queue>", "threadCallQueue does not start as an empty list")
+    with section(ctx, 'mainLoop drains every iteration'):
+        f = ctx.func(BASE, "ReactorBase.mainLoop")
+        g = ctx.cfg(f, swallowing=swallow)
+        q = f"{QR}.mainLoop"
+        ru = gfind(g, lambda x: _is_call(x, "self.runUntilCurrent"))
+        di = gfind(g, lambda x: _is_call(x, "self.doIteration"))
+        ctx.check(bool(ru) and bool(di), "mainloop/drains-each-iteration", q, "mainLoop lost runUntilCurrent()/doIteration()")
+        for n in ru:
+            c = next(x for x in ast.walk(g.node(n).ast) if _is_call(x, "self.runUntilCurrent"))
+            ctx.check(enclosing(c, (ast.While,)) is not None and isolating_with(c, names) is not None, "mainloop/drains-each-iteration", ctx.construct(q, g.node(n).ast),
+                      "runUntilCurrent() is not run on every loop iteration under the top-level failure handler")
+        for n in di:
+            w = g.path([n], ru, edge_ok=no_exc)
+            ctx.check(w is not None, "mainloop/drains-each-iteration", ctx.construct(q, g.node(n).ast), "after the poll returns (e.g. woken by the waker) the queue is not drained again")
+
+    # ---- ReactorBase.__init__ --------------------
+    with section(ctx, 'ReactorBase.__init__'):
+        f = ctx.func(BASE, "ReactorBase.__init__")
+        g = ctx.cfg(f)
+        iw = gfind(g, lambda x: _is_call(x, "self.installWaker"))
+        w = must_pass(g, [g.entry], iw, exc=False)
+        ctx.check(bool(iw) and w is None, "waker/installed", f"{QR}.__init__", "the reactor is constructed without installing a waker: wakeUp() is a no-op", witness=g.describe(w))
+        qinit = g.ids(lambda n: n.kind == "stmt" and any(self_attr(t, QUEUE) and isinstance(v, ast.List) and not v.elts for t, v in assign_pairs(n.ast)))
+        ctx.check(bool(qinit), "queue/who-may-mutate", f"{QR}.__init__ | <initial queue>", "threadCallQueue does not start as an empty list")
 
     # ---- posixbase: the waker is created and watched ------------------------------------------------------------------------------------
-    pm = ctx.mod(POSIX)
-    f = ctx.func(POSIX, "PosixReactorBase.installWaker")
-    g = ctx.cfg(f)
-    q = "twisted.internet.posixbase.PosixReactorBase.installWaker"
-    mk = g.ids(lambda n: n.kind == "stmt" and any(self_attr(t, "waker") for t, v in assign_pairs(n.ast)))
-    rd = gfind(g, lambda x: (_is_call(x, "self.addReader") or _is_call(x, "self._addInternalReader")) and len(x.args) == 1 and src(x.args[0]) == "self.waker")
-    ctx.check(bool(mk), "waker/installed", q, "installWaker does not create self.waker")
-    for n in mk:
-        v = next(v for t, v in assign_pairs(g.node(n).ast) if self_attr(t, "waker"))
-        ctx.check(src(v) == "self._wakerFactory()", "waker/installed", ctx.construct(q, g.node(n).ast), "self.waker is not built by _wakerFactory()")
-        w = must_pass(g, [n], rd, exc=False)
-        ctx.check(bool(rd) and w is None, "waker/watched-by-reactor", ctx.construct(q, g.node(n).ast),
-                  "the waker is not added as a reader: bytes written by wakeUp() never interrupt the poll", witness=g.describe(w))
-    conds = {src(g.node(t).ast) for n in mk for t, lab in g.edge_guards(n)}
-    ctx.check(conds <= {"self.waker"}, "waker/installed", q + " | <conditions>", "installing the waker depends on: " + ", ".join(sorted(conds)))
-    f = ctx.func(POSIX, "PosixReactorBase._wakerFactory")
-    rets = [r for r in body_walk(f) if isinstance(r, ast.Return)]
-    ctx.check(len(rets) == 1 and src(rets[0].value) == "_Waker()", "waker/installed", "twisted.internet.posixbase.PosixReactorBase._wakerFactory", "_wakerFactory does not return _Waker()")
-    imp = [n for n in pm.tree.body if isinstance(n, ast.ImportFrom) and n.module == "_signals" and n.level == 1 and any(a.name == "_Waker" for a in n.names)]
-    ctx.check(bool(imp), "waker/installed", "twisted.internet.posixbase | import _Waker", "_Waker is not the one of twisted.internet._signals")
+    with section(ctx, 'posixbase: the waker is created and watched'):
+        pm = ctx.mod(POSIX)
+        f = ctx.func(POSIX, "PosixReactorBase.installWaker")
+        g = ctx.cfg(f)
+        q = "twisted.internet.posixbase.PosixReactorBase.installWaker"
+        mk = g.ids(lambda n: n.kind == "stmt" and any(self_attr(t, "waker") for t, v in assign_pairs(n.ast)))
+        rd = gfind(g, lambda x: (_is_call(x, "self.addReader") or _is_call(x, "self._addInternalReader")) and len(x.args) == 1 and src(x.args[0]) == "self.waker")
+        ctx.check(bool(mk), "waker/installed", q, "installWaker does not create self.waker")
+        for n in mk:
+            v = next(v for t, v in assign_pairs(g.node(n).ast) if self_attr(t, "waker"))
+            ctx.check(src(v) == "self._wakerFactory()", "waker/installed", ctx.construct(q, g.node(n).ast), "self.waker is not built by _wakerFactory()")
+            w = must_pass(g, [n], rd, exc=False)
+            ctx.check(bool(rd) and w is None, "waker/watched-by-reactor", ctx.construct(q, g.node(n).ast),
+                      "the waker is not added as a reader: bytes written by wakeUp() never interrupt the poll", witness=g.describe(w))
+        conds = {src(g.node(t).ast) for n in mk for t, lab in g.edge_guards(n)}
+        ctx.check(conds <= {"self.waker"}, "waker/installed", q + " | <conditions>", "installing the waker depends on: " + ", ".join(sorted(conds)))
+        f = ctx.func(POSIX, "PosixReactorBase._wakerFactory")
+        rets = [r for r in body_walk(f) if isinstance(r, ast.Return)]
+        ctx.check(len(rets) == 1 and src(rets[0].value) == "_Waker()", "waker/installed", "twisted.internet.posixbase.PosixReactorBase._wakerFactory", "_wakerFactory does not return _Waker()")
+        imp = [n for n in pm.tree.body if isinstance(n, ast.ImportFrom) and n.module == "_signals" and n.level == 1 and any(a.name == "_Waker" for a in n.names)]
+        ctx.check(bool(imp), "waker/installed", "twisted.internet.posixbase | import _Waker", "_Waker is not the one of twisted.internet._signals")
 
     # ---- _signals: the wakers ----------------------------------------------------------------------------------------------------------------
-    sm = ctx.mod(SIGNALS)
-    wsel = [v for st in ast.walk(sm.tree) if isinstance(st, ast.Assign) for t in st.targets if isinstance(t, ast.Name) and t.id == "_Waker" for v in [st.value]]
-    ctx.need(wsel, "_Waker = ... in _signals.py")
-    for v in wsel:
-        cls = sm.find(src(v))
-        key = f"twisted.internet._signals._Waker = {src(v)}"
-        if not isinstance(cls, ast.ClassDef):
-            ctx.violation("waker/writes-a-byte", key, "_Waker is not bound to a class of the module")
-            continue
-        r = mro_lookup(sm, cls, "wakeUp")
-        ctx.check(r is not None and isinstance(r[1], (ast.FunctionDef,)), "waker/writes-a-byte", key, "the selected waker class has no wakeUp()")
-        if r is None or not isinstance(r[1], ast.FunctionDef):
-            continue
-        wf = r[1]
-        wq = f"twisted.internet._signals.{r[0].name}.wakeUp"
-        ctx.functions.add(f"{SIGNALS}:{r[0].name}.wakeUp")
-        g = ctx.cfg(wf)
-        sends = []
-        for c in body_walk(wf):
-            if not isinstance(c, ast.Call):
+    with section(ctx, '_signals: the wakers'):
+        sm = ctx.mod(SIGNALS)
+        wsel = [v for st in ast.walk(sm.tree) if isinstance(st, ast.Assign) for t in st.targets if isinstance(t, ast.Name) and t.id == "_Waker" for v in [st.value]]
+        ctx.need(wsel, "_Waker = ... in _signals.py")
+        for v in wsel:
+            cls = sm.find(src(v))
+            key = f"twisted.internet._signals._Waker = {src(v)}"
+            if not isinstance(cls, ast.ClassDef):
+                ctx.violation("waker/writes-a-byte", key, "_Waker is not bound to a class of the module")
                 continue
-            args = list(c.args)
-            if dotted(c.func) in ("util.untilConcludes", "untilConcludes") and args:
-                target, args = src(args[0]), args[1:]
-            else:
-                target = dotted(c.func) or ""
-            if target == "os.write" and len(args) == 2:
-                sends.append((c, src(args[0]), args[1]))
-            elif target.endswith(".send") and len(args) == 1:
-                sends.append((c, target[:-5], args[0]))
-        ctx.check(len(sends) == 1, "waker/writes-a-byte", wq, f"{len(sends)} write sites in wakeUp (one expected)")
-        for c, end, data in sends:
-            key2 = ctx.construct(wq, c)
-            ctx.check(isinstance(data, ast.Constant) and isinstance(data.value, bytes) and len(data.value) >= 1, "waker/writes-a-byte", key2,
-                      "wakeUp writes no data: the reactor's poll is not interrupted")
-            # which end: must be the end that is NOT the one returned by fileno()
-            init = mro_lookup(sm, cls, "__init__")
-            read_end = None
-            if init is not None and isinstance(init[1], ast.FunctionDef):
-                for st in body_walk(init[1]):
-                    for t, v2 in assign_pairs(st):
-                        if self_attr(t, "fileno"):
-                            if isinstance(v2, ast.Lambda):
-                                read_end = src(v2.body)
-                            elif isinstance(v2, ast.Attribute) and v2.attr == "fileno":
-                                read_end = src(v2.value)
-            ctx.check(read_end is not None and end != read_end and end.startswith("self."), "waker/writes-to-write-end", key2,
-                      f"wakeUp writes to {end}, but the reactor watches {read_end}: the write never makes the watched descriptor readable")
-            if init is not None and isinstance(init[1], ast.FunctionDef):
-                pipes = [st for st in body_walk(init[1]) if isinstance(st, ast.Assign) and isinstance(st.value, ast.Call) and dotted(st.value.func) == "os.pipe"]
-                for st in pipes:
-                    tg = st.targets[0]
-                    ok = isinstance(tg, ast.Tuple) and len(tg.elts) == 2 and src(tg.elts[0]) == read_end and src(tg.elts[1]) == end
-                    ctx.check(ok, "waker/writes-to-write-end", ctx.construct(f"twisted.internet._signals.{init[0].name}.__init__", st),
-                              "os.pipe() returns (read end, write end): the ends are bound the wrong way round")
-            n = g.ids_of(c)
-            extra = {src(g.node(t).ast) for x in n for t, lab in g.edge_guards(x)} - {f"{end} is not None", f"{end} is None"}
-            ctx.check(not extra, "waker/writes-a-byte", key2 + " | <conditions>", "the wake-up write depends on: " + ", ".join(sorted(extra)))
+            r = mro_lookup(sm, cls, "wakeUp")
+            ctx.check(r is not None and isinstance(r[1], (ast.FunctionDef,)), "waker/writes-a-byte", key, "the selected waker class has no wakeUp()")
+            if r is None or not isinstance(r[1], ast.FunctionDef):
+                continue
+            wf = r[1]
+            wq = f"twisted.internet._signals.{r[0].name}.wakeUp"
+            ctx.functions.add(f"{SIGNALS}:{r[0].name}.wakeUp")
+            g = ctx.cfg(wf)
+            sends = []
+            for c in body_walk(wf):
+                if not isinstance(c, ast.Call):
+                    continue
+                args = list(c.args)
+                if dotted(c.func) in ("util.untilConcludes", "untilConcludes") and args:
+                    target, args = src(args[0]), args[1:]
+                else:
+                    target = dotted(c.func) or ""
+                if target == "os.write" and len(args) == 2:
+                    sends.append((c, src(args[0]), args[1]))
+                elif target.endswith(".send") and len(args) == 1:
+                    sends.append((c, target[:-5], args[0]))
+            ctx.check(len(sends) == 1, "waker/writes-a-byte", wq, f"{len(sends)} write sites in wakeUp (one expected)")
+            for c, end, data in sends:
+                key2 = ctx.construct(wq, c)
+                ctx.check(isinstance(data, ast.Constant) and isinstance(data.value, bytes) and len(data.value) >= 1, "waker/writes-a-byte", key2,
+                          "wakeUp writes no data: the reactor's poll is not interrupted")
+                # which end: must be the end that is NOT the one returned by fileno()
+                init = mro_lookup(sm, cls, "__init__")
+                read_end = None
+                if init is not None and isinstance(init[1], ast.FunctionDef):
+                    for st in body_walk(init[1]):
+                        for t, v2 in assign_pairs(st):
+                            if self_attr(t, "fileno"):
+                                if isinstance(v2, ast.Lambda):
+                                    read_end = src(v2.body)
+                                elif isinstance(v2, ast.Attribute) and v2.attr == "fileno":
+                                    read_end = src(v2.value)
+                ctx.check(read_end is not None and end != read_end and end.startswith("self."), "waker/writes-to-write-end", key2,
+                          f"wakeUp writes to {end}, but the reactor watches {read_end}: the write never makes the watched descriptor readable")
+                if init is not None and isinstance(init[1], ast.FunctionDef):
+                    pipes = [st for st in body_walk(init[1]) if isinstance(st, ast.Assign) and isinstance(st.value, ast.Call) and dotted(st.value.func) == "os.pipe"]
+                    for st in pipes:
+                        tg = st.targets[0]
+                        ok = isinstance(tg, ast.Tuple) and len(tg.elts) == 2 and src(tg.elts[0]) == read_end and src(tg.elts[1]) == end
+                        ctx.check(ok, "waker/writes-to-write-end", ctx.construct(f"twisted.internet._signals.{init[0].name}.__init__", st),
+                                  "os.pipe() returns (read end, write end): the ends are bound the wrong way round")
+                n = g.ids_of(c)
+                extra = {src(g.node(t).ast) for x in n for t, lab in g.edge_guards(x)} - {f"{end} is not None", f"{end} is None"}
+                ctx.check(not extra, "waker/writes-a-byte", key2 + " | <conditions>", "the wake-up write depends on: " + ", ".join(sorted(extra)))
 
     # ---- asyncio sibling -------------------------------------------------------------------------------------------------------------------------
-    f = ctx.func(ASYNCIO, "AsyncioSelectorReactor.callFromThread")
-    q = "twisted.internet.asyncioreactor.AsyncioSelectorReactor.callFromThread"
-    ps = [a.arg for a in f.args.args]
-    ctx.need(len(ps) >= 2 and f.args.vararg and f.args.kwarg, "asyncio callFromThread(self, f, *args, **kwargs)")
-    fn, va, kwa = ps[1], f.args.vararg.arg, f.args.kwarg.arg
-    hand = [c for c in body_walk(f) if isinstance(c, ast.Call) and isinstance(c.func, ast.Attribute) and c.func.attr.startswith("call_") and src(c.func.value) == "self._asyncioEventloop"]
-    ctx.check(len(hand) == 1, "asyncio/threadsafe-handoff", q, f"{len(hand)} hand-offs to the asyncio loop (one expected)")
-    closures = {t.id: v for st in body_walk(f) for t, v in assign_pairs(st) if isinstance(t, ast.Name) and isinstance(v, ast.Lambda)}
-    closures.update({n.name: n for n in body_walk(f) if isinstance(n, ast.FunctionDef)})
-    for c in hand:
-        key = ctx.construct(q, c)
-        ctx.check(c.func.attr == "call_soon_threadsafe", "asyncio/threadsafe-handoff", key,
-                  f"{c.func.attr} is not thread-safe and does not wake the loop: the call is lost or waits for an unrelated event")
-        arg = c.args[0] if c.args else None
-        body = None
-        if isinstance(arg, ast.Lambda):
-            body = list(ast.walk(arg.body))
-        elif isinstance(arg, ast.Name) and arg.id in closures:
-            cl = closures[arg.id]
-            body = list(ast.walk(cl.body)) if isinstance(cl, ast.Lambda) else [x for st in cl.body for x in ast.walk(st)]
-        ok = False
-        for x in body or []:
-            if isinstance(x, ast.Call):
-                rest = None
-                if call_name(x) == "self.callLater" and len(x.args) >= 2 and isinstance(x.args[0], ast.Constant) and x.args[0].value == 0 and src(x.args[1]) == fn:
-                    rest = x.args[2:]
-                elif isinstance(x.func, ast.Name) and x.func.id == fn:
-                    rest = x.args
-                if rest is not None and len(rest) == 1 and isinstance(rest[0], ast.Starred) and src(rest[0].value) == va and len(x.keywords) == 1 \
-                        and x.keywords[0].arg is None and src(x.keywords[0].value) == kwa:
-                    ok = True
-        ctx.check(len(c.args) == 1 and ok, "asyncio/threadsafe-handoff", key + " | <payload>", "the hand-off does not run f(*args, **kwargs) (directly or through callLater(0, ...)) in the loop thread")
-    direct = [c for c in body_walk(f) if isinstance(c, ast.Call) and isinstance(c.func, ast.Name) and c.func.id == fn]
-    ctx.check(not direct, "enqueue/never-runs-in-caller", q, "callFromThread invokes f in the calling thread")
-    f = ctx.func(ASYNCIO, "AsyncioSelectorReactor.callLater")
-    g = ctx.cfg(f)
-    q = "twisted.internet.asyncioreactor.AsyncioSelectorReactor.callLater"
-    rs = gfind(g, lambda x: _is_call(x, "self._reschedule"))
-    ctx.check(bool(rs), "asyncio/timer-rescheduled", q, "a new delayed call never re-arms the asyncio timer: callFromThread's callLater(0, ...) waits for the previous deadline")
-    for n in rs:
-        conds = {src(g.node(t).ast) for t, lab in g.edge_guards(n)}
-        ctx.check(all("self._scheduledAt" in c for c in conds), "asyncio/timer-rescheduled", ctx.construct(q, g.node(n).ast),
-                  "re-arming the timer depends on: " + ", ".join(sorted(conds)))
-    tests = g.ids(lambda n: n.kind == "test" and src(n.ast) == "self._scheduledAt is None")
-    for t in tests:
-        w = must_pass(g, [d for d, l in g.succ[t] if l == "T"], rs, exc=False)
-        ctx.check(w is None, "asyncio/timer-rescheduled", q + " | <no timer armed>", "with no timer armed a new call does not arm one", witness=g.describe(w))
-    lt = g.ids(lambda n: n.kind == "test" and isinstance(n.ast, ast.Compare) and src(n.ast.comparators[0]) == "self._scheduledAt" and len(n.ast.ops) == 1)
-    for t in lt:
-        ctx.check(isinstance(g.node(t).ast.ops[0], (ast.Lt, ast.LtE)), "asyncio/timer-rescheduled", ctx.construct(q, g.node(t).ast),
-                  "the timer is re-armed only for later deadlines: an earlier call (delay 0 from callFromThread) waits for the old deadline")
-        w = must_pass(g, [d for d, l in g.succ[t] if l == "T"], rs, exc=False)
-        ctx.check(w is None, "asyncio/timer-rescheduled", q + " | <earlier deadline>", "an earlier deadline does not re-arm the timer", witness=g.describe(w))
-    f = ctx.func(ASYNCIO, "AsyncioSelectorReactor._onTimer")
-    g = ctx.cfg(f)
-    q = "twisted.internet.asyncioreactor.AsyncioSelectorReactor._onTimer"
-    ru = gfind(g, lambda x: _is_call(x, "self.runUntilCurrent"))
-    w = must_pass(g, [g.entry], ru, exc=False)
-    ctx.check(bool(ru) and w is None, "asyncio/timer-runs-calls", q, "the asyncio timer callback does not run the due calls", witness=g.describe(w))
+    with section(ctx, 'asyncio sibling'):
+        f = ctx.func(ASYNCIO, "AsyncioSelectorReactor.callFromThread")
+        q = "twisted.internet.asyncioreactor.AsyncioSelectorReactor.callFromThread"
+        ps = [a.arg for a in f.args.args]
+        ctx.need(len(ps) >= 2 and f.args.vararg and f.args.kwarg, "asyncio callFromThread(self, f, *args, **kwargs)")
+        fn, va, kwa = ps[1], f.args.vararg.arg, f.args.kwarg.arg
+        hand = [c for c in body_walk(f) if isinstance(c, ast.Call) and isinstance(c.func, ast.Attribute) and c.func.attr.startswith("call_") and src(c.func.value) == "self._asyncioEventloop"]
+        ctx.check(len(hand) == 1, "asyncio/threadsafe-handoff", q, f"{len(hand)} hand-offs to the asyncio loop (one expected)")
+        closures = {t.id: v for st in body_walk(f) for t, v in assign_pairs(st) if isinstance(t, ast.Name) and isinstance(v, ast.Lambda)}
+        closures.update({n.name: n for n in body_walk(f) if isinstance(n, ast.FunctionDef)})
+        for c in hand:
+            key = ctx.construct(q, c)
+            ctx.check(c.func.attr == "call_soon_threadsafe", "asyncio/threadsafe-handoff", key,
+                      f"{c.func.attr} is not thread-safe and does not wake the loop: the call is lost or waits for an unrelated event")
+            arg = c.args[0] if c.args else None
+            body = None
+            if isinstance(arg, ast.Lambda):
+                body = list(ast.walk(arg.body))
+            elif isinstance(arg, ast.Name) and arg.id in closures:
+                cl = closures[arg.id]
+                body = list(ast.walk(cl.body)) if isinstance(cl, ast.Lambda) else [x for st in cl.body for x in ast.walk(st)]
+            ok = False
+            for x in body or []:
+                if isinstance(x, ast.Call):
+                    rest = None
+                    if call_name(x) == "self.callLater" and len(x.args) >= 2 and isinstance(x.args[0], ast.Constant) and x.args[0].value == 0 and src(x.args[1]) == fn:
+                        rest = x.args[2:]
+                    elif isinstance(x.func, ast.Name) and x.func.id == fn:
+                        rest = x.args
+                    if rest is not None and len(rest) == 1 and isinstance(rest[0], ast.Starred) and src(rest[0].value) == va and len(x.keywords) == 1 \
+                            and x.keywords[0].arg is None and src(x.keywords[0].value) == kwa:
+                        ok = True
+            ctx.check(len(c.args) == 1 and ok, "asyncio/threadsafe-handoff", key + " | <payload>", "the hand-off does not run f(*args, **kwargs) (directly or through callLater(0, ...)) in the loop thread")
+        direct = [c for c in body_walk(f) if isinstance(c, ast.Call) and isinstance(c.func, ast.Name) and c.func.id == fn]
+        ctx.check(not direct, "enqueue/never-runs-in-caller", q, "callFromThread invokes f in the calling thread")
+
+    # ---- asyncio timer --------------------
+    with section(ctx, 'asyncio timer'):
+        f = ctx.func(ASYNCIO, "AsyncioSelectorReactor.callLater")
+        g = ctx.cfg(f)
+        q = "twisted.internet.asyncioreactor.AsyncioSelectorReactor.callLater"
+        rs = gfind(g, lambda x: _is_call(x, "self._reschedule"))
+        ctx.check(bool(rs), "asyncio/timer-rescheduled", q, "a new delayed call never re-arms the asyncio timer: callFromThread's callLater(0, ...) waits for the previous deadline")
+        for n in rs:
+            conds = {src(g.node(t).ast) for t, lab in g.edge_guards(n)}
+            ctx.check(all("self._scheduledAt" in c for c in conds), "asyncio/timer-rescheduled", ctx.construct(q, g.node(n).ast),
+                      "re-arming the timer depends on: " + ", ".join(sorted(conds)))
+        tests = g.ids(lambda n: n.kind == "test" and src(n.ast) == "self._scheduledAt is None")
+        for t in tests:
+            w = must_pass(g, [d for d, l in g.succ[t] if l == "T"], rs, exc=False)
+            ctx.check(w is None, "asyncio/timer-rescheduled", q + " | <no timer armed>", "with no timer armed a new call does not arm one", witness=g.describe(w))
+        lt = g.ids(lambda n: n.kind == "test" and isinstance(n.ast, ast.Compare) and src(n.ast.comparators[0]) == "self._scheduledAt" and len(n.ast.ops) == 1)
+        for t in lt:
+            ctx.check(isinstance(g.node(t).ast.ops[0], (ast.Lt, ast.LtE)), "asyncio/timer-rescheduled", ctx.construct(q, g.node(t).ast),
+                      "the timer is re-armed only for later deadlines: an earlier call (delay 0 from callFromThread) waits for the old deadline")
+            w = must_pass(g, [d for d, l in g.succ[t] if l == "T"], rs, exc=False)
+            ctx.check(w is None, "asyncio/timer-rescheduled", q + " | <earlier deadline>", "an earlier deadline does not re-arm the timer", witness=g.describe(w))
+        f = ctx.func(ASYNCIO, "AsyncioSelectorReactor._onTimer")
+        g = ctx.cfg(f)
+        q = "twisted.internet.asyncioreactor.AsyncioSelectorReactor._onTimer"
+        ru = gfind(g, lambda x: _is_call(x, "self.runUntilCurrent"))
+        w = must_pass(g, [g.entry], ru, exc=False)
+        ctx.check(bool(ru) and w is None, "asyncio/timer-runs-calls", q, "the asyncio timer callback does not run the due calls", witness=g.describe(w))
 
 
 def is_zero(e):
